@@ -61,7 +61,7 @@ GALLERY_BODIES = ["\nImage:x.jpg|cap ''i''\nBild:y.png\nnot an image\n[[A]]\n", 
 MATH_BODIES = ["x^2", "\\frac{1}{2}", "", "\\", "{", "<", "&#99999999999;", "\n"]
 POEM_BODIES = ["\nline1\n line2\n\n:line3\n", "", " ", "\n\n\n", "* a\n# b\n{|\n|x\n|}", "''a\n'''b", "<ref>x</ref>", "{{a}}"]
 SOURCE_BODIES = ["print('x')", "\n<b>\n", "", "&amp;", "{{a}}", "\x00"]
-PAGES_ATTRS = [' from="1" to="3" index="X"', ' from="a" to="b"', ' from=3 to=1', ' from="99999999999999999999" to="1"', " from=1", "", ' from="1" to="2000"']
+PAGES_ATTRS = [' from="1" to="3" index="X"', ' from="a" to="b"', ' from=3 to=1', ' from="99999999999999999999" to="1"', " from=1", "", ' from="1" to="2000"', ' from=1 to=300000 index=I']
 
 TEMPLATE_UNIVERSES = [
     None,
